@@ -35,8 +35,9 @@ def check(ctx):
     for rel, q in (("dask/array/_shuffle.py", "_shuffle"), ("dask/array/_array_expr/_shuffle.py", "Shuffle._layer")):
         f = ctx.model.module(rel).func(q)
         ms = [c for c in calls(f, "np.min_scalar_type")]
-        ok = len(ms) == 1 and unparse(ms[0].args[0]).startswith("max(*chunks[axis], ")
-        ctx.ob("ALG.take.index-dtype", f, "np.min_scalar_type(max(*chunks[axis], <limit>)): wide enough for every input chunk's offsets", ok, "" if ok else "offsets into an input chunk longer than the limit wrap around in the narrow dtype: wrong elements are taken")
+        a0 = unparse(ms[0].args[0]) if len(ms) == 1 else ""
+        ok = len(ms) == 1 and a0.startswith("max(*chunks[axis], ") and a0.endswith("*map(len, new_chunks))")
+        ctx.ob("ALG.take.index-dtype", f, "np.min_scalar_type(max(*chunks[axis], <limit>, *map(len, new_chunks))): wide enough for offsets into every input chunk and positions in every output chunk", ok, "" if ok else "offsets into an input chunk (or positions in an output chunk) longer than the limit wrap around in the narrow dtype: wrong elements are taken")
     # ---------------- vindex: bounds are checked against the shape AFTER the non-fancy part of the index is applied
     vi = ctx.model.module("dask/array/core.py").func("_vindex")
     red = find("x = x[nonfancy_indexes]", vi)
